@@ -637,6 +637,18 @@ func atomicStatus(c *an.Ctx, s *sched, rule string) {
 							"Stage.Status is stored outside UpdateStatus")
 						c.Site(rule, an.Short(fn)+" atomic.StoreInt32 "+c.P.Pos(x.Pos()))
 					default:
+						// a method of a status type of its own that does the atomic operation on the same word
+						if kind := atomicAccessor(x); kind != "" {
+							atomics++
+							if kind == "store" {
+								isUpd := an.Short(fn) == fnUpdateStatus
+								c.Check(isUpd, rule, key+":atomic-store", x.Pos(), "atomic store (through "+name+") inside UpdateStatus", "Stage.Status is stored outside UpdateStatus")
+							} else {
+								c.OK(rule, key+":atomic-load", x.Pos(), "atomic load (through "+name+")")
+							}
+							c.Site(rule, an.Short(fn)+" "+name+" "+c.P.Pos(x.Pos()))
+							continue
+						}
 						c.Bad(rule, key+":"+name, x.Pos(), "Stage.Status address escapes to %s", name)
 					}
 				case *ssa.UnOp:
@@ -760,4 +772,58 @@ func edgeWiring(c *an.Ctx, s *sched, rule string) {
 		}
 		c.Check(ok, rule, an.Short(f)+":accessor", f.Pos(), acc.name+" returns "+acc.field+"[name] unmodified", acc.name+" does not return "+acc.field+"[name] unmodified")
 	}
+}
+
+// atomicAccessor: call hands the address to a small module function that does nothing with it but one sync/atomic
+// operation on the same word (after a pointer conversion to the underlying integer type); it returns "load",
+// "store" or "".
+func atomicAccessor(call *ssa.Call) string {
+	h := call.Call.StaticCallee()
+	if h == nil || !an.InModule(h) || h.Blocks == nil || len(h.Blocks) != 1 || len(call.Call.Args) == 0 {
+		return ""
+	}
+	var prm *ssa.Parameter
+	for i, a := range call.Call.Args {
+		if _, isFA := a.(*ssa.FieldAddr); isFA && i < len(h.Params) {
+			prm = h.Params[i]
+		}
+	}
+	if prm == nil || prm.Referrers() == nil {
+		return ""
+	}
+	kind := ""
+	ok := true
+	var visit func(v ssa.Value)
+	visit = func(v ssa.Value) {
+		if v.Referrers() == nil {
+			return
+		}
+		for _, r := range *v.Referrers() {
+			switch x := r.(type) {
+			case *ssa.Convert:
+				visit(x)
+			case *ssa.ChangeType:
+				visit(x)
+			case *ssa.DebugRef:
+			case *ssa.Call:
+				switch an.ShortCallee(&x.Call) {
+				case "sync/atomic.LoadInt32":
+					if kind == "" {
+						kind = "load"
+					}
+				case "sync/atomic.StoreInt32", "sync/atomic.CompareAndSwapInt32", "sync/atomic.SwapInt32":
+					kind = "store"
+				default:
+					ok = false
+				}
+			default:
+				ok = false
+			}
+		}
+	}
+	visit(prm)
+	if !ok {
+		return ""
+	}
+	return kind
 }
